@@ -62,3 +62,7 @@ Definition v_split (a : sarray) (flds : option names_arg) (getnames : bool)
 Definition v_compare (a1 a2 : sarray) (ignore_missing : bool) (out : result bool) : Z :=
   verdict (wf_b a1 && wf_b a2 && result_eqb Bool.eqb (compare_arrays a1 a2 ignore_missing) out)
           (if comparable_b a1 a2 then compare_check a1 a2 ignore_missing out else true).
+
+(* plain (field-less) input of split_fields: outside the statement, correspondence only *)
+Definition v_split_plain (v : fview) (flds : option names_arg) (out : result (list fview)) : Z :=
+  verdict (result_eqb (list_eqb fview_eqb) (split_plain v flds) out) true.
